@@ -349,6 +349,8 @@ def _default_edit(draw, s, a, out, classes, tokens):
             return None
         return out(classes, tokens, False)
     new = GS.gen_nonnull(draw, s, t, 1)
+    if t[0] != "nn" and draw(st.integers(0, 3)) == 0:
+        new = None    # an explicit `= null` default is a default: resolvers receive None where the key was absent
     if "default" in a and GS.coerce_ref(s, t, a["default"]) == GS.coerce_ref(s, t, new):
         return None
     a["default"] = new
@@ -574,7 +576,8 @@ def hashseed_phase(ctx):
     collect()
     outs = []
     for hs in range(4):
-        env = dict(os.environ, PYTHONPATH=HERE + ":" + os.path.join(HERE, ".deps"), PYTHONHASHSEED=str(hs))
+        env = dict(os.environ, PYTHONHASHSEED=str(hs))
+        env["PYTHONPATH"] = os.pathsep.join([HERE, os.path.join(HERE, ".deps")] + [p for p in os.environ.get("PYTHONPATH", "").split(os.pathsep) if p])
         r = subprocess.run([sys.executable, "-W", "ignore", "-m", "props.c20"], input=json.dumps(pairs), capture_output=True, text=True,
                            cwd=HERE, env=env, timeout=600)
         if r.returncode != 0:
